@@ -278,6 +278,34 @@ def f_derivative(a):
             "sigma": a["G"]["V"], "L": a["L"]}
 
 
+def _text_ok(g):
+    """Grammars the textual format can spell: a shipped weight class with from_string, terminals that are plain words."""
+    return (g.R in (us.Boolean, us.Float, us.Real, us.MaxTimes)
+            and all(isinstance(x, str) and x.isalnum() and x.islower() for x in g.V))
+
+
+def _text_roundtrip(g, arrow):
+    """CFG.from_string(text of g): the grammar printed in the library's textual format and parsed back (nonterminals
+    are spelled N0, N1, ... and declared through is_terminal)."""
+    if not _text_ok(g):               # (a re-spelled variant of the call: token ids have no textual form)
+        return g
+    names = {g.S: "N0"}
+    for r in g.rules:
+        for x in (r.head,) + tuple(y for y in r.body if y not in g.V):
+            names.setdefault(x, f"N{len(names)}")
+
+    def wtxt(w):
+        if g.R is us.Boolean:
+            return "True" if w == us.Boolean.one else "False"
+        return repr(float(w if g.R is us.Float else w.score))
+    lines = ["# printed by the harness", ""]
+    for r in g.rules:
+        lines.append(f"{wtxt(r.w)}: {names[r.head]} {arrow} {' '.join(names.get(y, y) for y in r.body)}")
+    out = CFG.from_string("\n".join(lines), g.R, start="N0", is_terminal=lambda x: x in g.V)
+    out.V |= g.V                      # (the vocabulary of the text is the set of terminals it mentions)
+    return out
+
+
 def _rename_int(g):
     """An injective renaming of the nonterminals to integers: the start symbol becomes 0 (a falsy name)."""
     free = (k for k in range(0, -10000, -1) if k not in g.V)
@@ -303,6 +331,7 @@ TRANSFORMS = {
     "renumber": (lambda g, o: g.renumber(), []),
     "rename": (lambda g, o: g.rename(lambda x: ("r", x)), []),
     "rename_int": (lambda g, o: _rename_int(g), []),
+    "text": (lambda g, o: _text_roundtrip(g, o.get("arrow", "→")), []),
     "unfold": (lambda g, o: g.unfold(o["i"], o["k"]), []),
     "getitem_start": (lambda g, o: g[g.S], []),
 }
